@@ -63,17 +63,43 @@ T = {
  "C18c": ("C18", "the same PCA object computed twice (stale accumulators)", "C18 quick (after adding part reuse judging the C18 clauses on refitted objects; missed before)", "reuse:pca:pca>pca:factor-mean"),
  "C19c": ("C19", "xvalid with flag_est=0, flag_std!=0 on multivariate data (pre-existing columns overwritten)", "C19 quick (after adding part flags: all output-flag combinations x nvar; missed before)", "success-changes-old-values:xvalid"),
  "C20c": ("C20", "vertices replaced through setX/setY on an existing PolyElem/Polygons (stale cached bounding box)", "C20 quick (after adding the history_polyelem/history_polygons parts; missed before)", "history:PolyElem:inside-after:setX+setY"),
- "C01d": ("C01", "anisotropic structure whose scales differ by < 1e-3 in coordinate units (all lengths in a small unit): absolute-tolerance isotropy shortcut in the kriging projection", "MISSED by C01 quick at the time of seeding (O(1) lengths only); scale axis requested", ""),
- "C02d": ("C02", "drift list not closed under translation ({1,x^2}, {1,xy}...) and a field whose lower corner is not at 0", "C02 quick", "unbiased:monomial:drift:multivar:unique"),
- "C03d": ("C03", "zonal anisotropy (range ratio >= 1e6) whose long axis is not aligned with a coordinate axis, plain evaluation path", "MISSED by C03 quick at the time of seeding (ratios <= 10); extreme-parameter part requested", ""),
- "C05d": ("C05", "facies variable + selection where the largest label occurs only at masked samples (getFaciesNumber, dbStatisticsFacies, computeIndic)", "MISSED by C05 quick at the time of seeding (facies statistics not in the operation list); sweep requested", ""),
- "C06d": ("C06", "K-fold cross-validation with a target Db different from the input Db and different codes", "MISSED by C06 quick at the time of seeding (xvalid part uses dbout = dbin); extension requested", ""),
- "C07d": ("C07", "setLocators with a name list designating one column twice, the literal name coming second", "MISSED by C07 quick at the time of seeding (vector arguments never repeat an element); extension requested", ""),
- "C08d": ("C08", "negative Db value needing 15 digits with a three-digit exponent (22-character text)", "MISSED by C08 quick at the time of seeding (value menu lacks the longest texts); extension requested", ""),
- "C10d": ("C10", "mvndst with every variable unbounded or an invalid count leaves the generator on its internal seed", "MISSED by C10 quick at the time of seeding (generator state after non-random calls not judged); extension requested", ""),
  "C09b": ("C09", "24/32-bit BMP whose colour-count header field exceeds 256", "C09 quick (after adding the binary grid readers with header-field faults; missed before)", "GridBmp:header-field:biClrUsed=small:memory-error"),
+ # ---- round 3 (one seed per property, written after the seeders were told what rounds 1-2 had used) ----
+ "C01d": ("C01", "anisotropic structure whose scales differ by < 1e-3 in coordinate units (all lengths in a small unit): absolute-tolerance isotropy shortcut in the kriging projection", "C01 quick and C02 quick (after adding the parts scale / rescale: every case re-run with lengths x 2^-20..2^20 and values x 2^-8..2^6; missed before: O(1) lengths only)", ""),
+ "C02d": ("C02", "drift list not closed under translation ({1,x^2}, {1,xy}...) and a field whose lower corner is not at 0", "C02 quick", "unbiased:monomial:drift:multivar:unique"),
+ "C03d": ("C03", "zonal anisotropy (range ratio >= 1e6) whose long axis is not aligned with a coordinate axis, plain evaluation path", "C03 quick (after adding part extreme: range ratios up to 1e9 x rotations; missed before: ratios <= 10)", ""),
+ "C04d": ("C04", "ball tree with at least three levels ((n-1)/leaf_size >= 4: 41 samples with the default leaf size, 121 through migrate): wrong pruning bound in the node search", "C04 quick", "neigh-ball:differs"),
+ "C05d": ("C05", "facies variable + selection where the largest label occurs only at masked samples (getFaciesNumber, dbStatisticsFacies, computeIndic)", "C05 quick (after adding part other_sample_readers_masked_vs_removed; missed before: facies statistics not in the operation list)", ""),
+ "C06d": ("C06", "K-fold cross-validation with a target Db different from the input Db and different codes", "C06 quick (after adding part xvalid_separate; missed before: dbout = dbin only)", ""),
+ "C07d": ("C07", "setLocators with a name list designating one column twice, the literal name coming second", "C07 quick (after adding 31 degenerate-vector calls and reader clauses on degenerate lists; missed before: vector arguments never repeated an element)", ""),
+ "C08d": ("C08", "negative Db value needing 15 digits with a three-digit exponent (22-character text)", "", ""),
+ "C09d": ("C09", "word >= ~1000 characters taken from the malformed file and echoed by messerr (stack buffer overrun while reporting the failure), verbose loaders", "", ""),
+ "C10d": ("C10", "mvndst with every variable unbounded or an invalid count leaves the generator on its internal seed", "C10 quick (after adding the generator rule + part rng_neutral; missed before: generator state after non-random calls not judged)", ""),
+ "C11d": ("C11", "", "", ""),
+ "C12d": ("C12", "db_vmap FFT route with padded length (nx+nxx-1) multiple of 8", "", ""),
+ "C13d": ("C13", "Gibbs schedule with exactly one sweep after burn-in (niter = nburn+1) and interval bounds / conditional simpgs (patch rebased on fix 06c40bc19, same final code)", "", ""),
+ "C14d": ("C14", "simfft on a rotated grid with non-square mesh and an anisotropic model (transposed mesh matrix)", "", ""),
+ "C15d": ("C15", "MeshEStandard 2-D with coordinates large relative to the mesh size (UTM-like origin, mesh 2-25 m): closed-form determinant cancels", "", ""),
+ "C16d": ("C16", "grid mesh <= 1e-3 in coordinate units (tolerance added before the division by the mesh)", "", ""),
+ "C17d": ("C17", "lock_samerot with a range-less first structure (LINEAR, POWER...) followed by ranged structures, rotation inferred", "", ""),
+ "C18d": ("C18", "Hermite anamorphosis with pymax < aymax (left-skewed / bimodal data): upper linear junction of Gaussian -> raw", "C18 quick", "hermite-anam:y-z-y"),
+ "C19d": ("C19", "roll-back of permanent variables by column index instead of UID: failure on a Db that already has a hole in its UID table", "C19 quick", "rollback:xvalid:addvar#2"),
+ "C20d": ("C20", "query ordinate one ulp away from a vertex ordinate (computed lattice k*0.1 against typed tenths), point far from the boundary", "C20 quick (after adding parts decimal_tri/decimal_quad with an exact 128-bit reference; missed before: dyadic coordinates only)", "pip:decimal-lattice"),
 }
+MX = {}
+mp = os.path.join(R, "seeded", "detection_matrix.txt")
+if os.path.exists(mp):
+    import re
+    for line in open(mp):
+        m = re.match(r"(\S+) (\S+) quick -> exit (\d) \((\w+)\) ; violation keys: (\d+) ; first: key=(\S*)", line)
+        if m:
+            MX[m.group(1)] = (m.group(4), m.group(6))
 for seed, (prop, needs, caught, key) in T.items():
+    if seed in MX and MX[seed][0] == "DETECTED":
+        key = key or MX[seed][1]
+        caught = caught or "%s quick" % prop
+    elif seed in MX and not caught.startswith("MISSED"):
+        caught = "MISSED by %s quick in the last detection-matrix run" % prop
     d = os.path.join(R, "seeded", seed)
     if not os.path.isdir(d):
         continue
